@@ -187,23 +187,12 @@ class WeakForms(_Simu):
         if results is None:
             return
 
-        if self.algo == AlgoType.elliptic:
-            u = results["u"]
-            self._Set_solutions(self.problemType, u)
-
-        elif self.algo == AlgoType.parabolic:
-            u = results["u"]
-            v = results["v"]
-            self._Set_solutions(self.problemType, u, v)
-
-        elif self.algo in AlgoType.Get_Hyperbolic_Types():
-            u = results["u"]
-            v = results["v"]
-            a = results["a"]
-            self._Set_solutions(self.problemType, u, v, a)
-
-        else:
-            raise TypeError("Unknown algo type.")
+        # the iteration holds what the time scheme active when it was saved needed (u, u and v, or
+        # u, v and a), whatever the scheme active now: the missing time derivatives are zero
+        u = results["u"]
+        v = results["v"] if "v" in results else np.zeros_like(u)
+        a = results["a"] if "a" in results else np.zeros_like(u)
+        self._Set_solutions(self.problemType, u, v, a)
 
         return results
 
